@@ -1,18 +1,28 @@
 """check configuration for C12 (see lib/vcheck.py)"""
 CONFIG = dict(
-    claim="Partial. Machine-checked proof over an executable model of resources/{mod,find,group,art}.rs and Pe::resources(): "
+    claim="Machine-checked proof over an executable model of resources/{mod,find,group,art}.rs and Pe::resources(): "
           "the entry array of a directory is the named entries followed by the ID entries at off+16+8i, inside the section and aligned for every Directory value "
           "(C12_entries_named_then_ids, C12_entries_positions, C12_entries_safe); names and data entries are exactly what the bytes say, both ways - a data entry yields Size bytes "
-          "at OffsetToData - VA with its code page (C12_name_complete/sound, C12_data_entry_complete/sound); for every section whose bytes denote a tree t (Spec/ResTree.v repr: counts, "
-          "entries in stored order, names, links, data ranges), a traversal of sufficient depth and budget returns exactly the depth-first listing of t (C12_traverse_repr); "
-          "the repaired consistency check never faults, terminates by structural recursion on ANY bytes including directories that contain themselves, and succeeds exactly when the root "
-          "denotes a tree of at most 32 nested directories and at most len/8 entries (C12_fsck_no_fault, C12_fsck_iff); Name comparison is the documented rule - '#<decimal id>', predefined "
-          "'#TYPE' names, exact UTF-16 including surrogate pairs (C12_name_matching) and lookup returns the first entry in stored order whose stored name matches (C12_lookup_first_match); "
-          "the find API, the manifest/version helpers, GroupResource::new and image never fault (C12_find_api_no_fault); for an accepted group whose images are found with the stated sizes and a "
-          "file below 4 GiB, write produces exactly Ico.encode: header, entries with recomputed offsets 6+16n+sum, image data in entry order (C12_group_write_ico). "
+          "at OffsetToData - VA with its code page (C12_name_complete/sound, C12_data_entry_complete/sound); traversal = denotation in both directions: for every section whose bytes denote a tree t "
+          "(Spec/ResTree.v repr: counts, entries in stored order, names, links, data ranges) a traversal of sufficient depth and budget returns exactly the depth-first listing of t (C12_traverse_repr), and every "
+          "traversal of an accepted directory that lists only valid entries and is neither cut nor stopped IS the listing of such a tree, no deeper than the depth given, its size the budget consumed "
+          "(C12_traverse_repr_converse, C12_traverse_clean_iff); the run-time oracle walk_sound, evaluated on the implementation's listing, accepts every listing the model produces on any bytes, depth and budget "
+          "(C12_walk_sound, C12_walk_sound_root); the repaired consistency check never faults, terminates by structural recursion on ANY bytes including directories that contain themselves, succeeds exactly when the root "
+          "denotes a tree of at most 32 nested directories and at most len/8 entries (C12_fsck_no_fault, C12_fsck_iff), hence on every well-formed tree laid out without sharing that is at most 32 deep "
+          "(C12_wellformed_size, C12_fsck_wellformed), rejects every section in which a reachable directory contains itself and accepts only sections in which every reachable directory, name, target and data range is valid "
+          "(C12_fsck_rejects_cycles, C12_fsck_ok_reachable), and visits at most len/8 entries at most 32 levels deep, stated for a ghost-instrumented fsck proved equal to the model function (C12_fsck_counted, "
+          "C12_fsck_dir_counted); the traversal lists exactly budget-minus-remaining entries below level lvl+depth and the tree printer writes at most 1+len/8 lines (C12_walk_count, C12_walk_levels, "
+          "C12_display_lines_bound); Name comparison is the documented rule - '#<decimal id>', predefined '#TYPE' names, exact UTF-16 including surrogate pairs (C12_name_matching), Name::Id(n) displays as '#' + decimal "
+          "digits which compares equal to Name::Id(n) in every direction and to no other id, for every n < 2^32 (C12_display_roundtrip, C12_display_is_decimal, C12_display_injective); lookup returns the first entry "
+          "in stored order whose stored name matches (C12_lookup_first_match), and get, find_resource, find_resource_ex, rooted path find, manifest, version_info, GroupResource::image, icons and cursors equal the "
+          "Spec's lookups read off the listing, for every complete listing of the root the model produces and for the listing of every section that denotes a tree (C12_lookups_on_traversal, C12_lookups_on_tree, "
+          "C12_lookup_on_listing, C12_lookup_on_traversal); the find API, the manifest/version helpers, GroupResource::new and image never fault (C12_find_api_no_fault); every Directory, DirectoryEntry, DataEntry "
+          "reference, every name and data slice, every group header and entry, every slice returned by the find API and every reference carried by a traversal lies inside the section with its address aligned for its "
+          "type, and Pe::resources() hands out a slice of the image (C12_try_from_safe, C12_entry_refs_safe, C12_name_safe, C12_entry_safe, C12_data_bytes_safe, C12_group_new_safe, C12_find_resource(_ex)_safe, "
+          "C12_manifest_safe, C12_version_info_safe, C12_group_image_safe, C12_group_list_safe, C12_pe_resources_safe, C12_walk_refs_safe, C12_walk_root_refs_safe); for an accepted group whose images are found with "
+          "the stated sizes and a file below 4 GiB, write produces exactly Ico.encode: header, entries with recomputed offsets 6+16n+sum, image data in entry order (C12_group_write_ico). "
           "F4, F16, F26, F29 were rediscovered by the check, repaired in /repo and refuted for the code as it stood (C12_F*_refuted). "
-          "Not proved (listed as open): the converse listing equality for the traversal, the agreement of the Spec's listing-level lookup functions (used by the run-time oracle) with the model, "
-          "Display/eq round trip for all ids, and an explicit work-bound theorem for fsck. Tied to /repo by the correspondence check on sections built by an independent writer.",
+          "Tied to /repo by the correspondence check on sections built by an independent writer; the oracle also evaluates manifest/icons/cursors read off the implementation's listing and the Display/eq round trip.",
     note="Trusted: Coq kernel, extraction and OCaml glue (UTF-8 decoding of query strings, the item parser), the harness's independent section writer; Spec/ResTree.v and Spec/Ico.v as the reading of the "
          "property text; the hand-copied RSRC_TYPES table (every name is queried by the generator); std::path component splitting (paths are given to the model as component lists: '/' + components "
          "joined by '/', components non-empty, not '.'/'..', without '/' or NUL); str::from_utf8 is modelled by a validity test; io::Write is an append-all sink (Vec<u8>); VersionInfo::try_from is modelled "
@@ -33,17 +43,11 @@ CONFIG = dict(
          "duplicate names; malformed stream: 1..3 field pokes with boundary values, truncation anywhere; placement at addresses 0,1,2,4,6,8,10,12 mod 16; VA in {0, 0xFFFFF000, 0x1002, random, pages}; "
          "observer depth 32 / budget len/8 (80%), or small depth / budget; 26 queries per case: present and absent names as Id, '#<id>', '#0<id>', '#TYPE', UTF-8 and UTF-16, odd forms "
          "('#0', '#', '', '#007', '#4294967296', '#+7', '#icon', non-ASCII), type/name(/language) lookups, paths by components (rooted, relative, empty); 1 in 97 cases goes through "
-         "Pe::resources() on a mapped PE32+ view (RVA 0 / 2 / 4 mod 8, Size smaller, equal, 2^32-1). Non-trivial: the root is accepted and has at least one entry.",
-    trusted_base=["Spec/ResTree.v (repr, flatten, name_matches, listing lookups) and Spec/Ico.v as the reading of the property text",
+         "Pe::resources() on a mapped PE32+ view (RVA 0 / 2 / 4 mod 8, Size smaller, equal, 2^32-1); every case also prints Name::Id(n) and compares it with its own text three ways for n in {0, 9, 10, 99, 100, 65535, 65536, 2^31-1, 2^31, 2^32-1} and the ids of its get queries. Non-trivial: the root is accepted and has at least one entry.",
+    trusted_base=["Spec/ResTree.v (repr, flatten, name_matches, listing lookups), Spec/ResSafety.v and Spec/Ico.v as the reading of the property text",
                   "hand-copied RSRC_TYPES table in Model/Resources.v; std::path splitting; str::from_utf8 modelled as a validity test",
                   "harness/src/bin/resources.rs independent resource-section and .ico writer"],
     assumptions=["usize is 64 bits; section bytes are bytes (sec_ok) where a theorem says so; query strings are valid Unicode scalar sequences; stored ids < 2^32",
                  "fsck accepts at most 32 nested directories and len/8 visited entries (repair of F16); write reports InvalidData when offsets exceed u32 (repair of F26)"],
-    open_statements=[
-        "C12_traverse_repr_converse: a clean listing returned by walk is the flatten of a tree represented by the bytes (existence of the tree follows from C12_fsck_iff; listing equality not proved)",
-        "C12_walk_sound: the extracted oracle walk_sound accepts every listing produced by the model (run-time check only)",
-        "C12_lookup_on_listing: dir_get/find_resource/find_resource_ex/find_path equal the Spec's listing-level lookups t_get_ent/t_find_resource/t_find_resource_ex/t_find_parts on flatten (run-time oracle only; the level-wise statement C12_lookup_first_match is proved)",
-        "C12_display_roundtrip: forall id < 2^32, eq_string (NId id) (display_id id) = true (proved for the F29 witness only)",
-        "C12_fsck_work_bound: explicit step-count theorem for fsck (the bound is the budget counter itself)",
-    ],
+    open_statements=[],
 )
